@@ -36,6 +36,7 @@ type Row struct {
 	Note     string         `json:"note"`
 	Tags     string         `json:"tags"` // extra build tags needed (e.g. race) -- rows with tags are run in a separate load
 	NoValidate bool         `json:"no_validate"`
+	SafetyOnly bool         `json:"safety_only"` // only panics, out-of-bounds accesses and unwinding failures count (C06)
 }
 
 type PropSpec struct {
@@ -298,6 +299,9 @@ func cmdCheck(args []string) int {
 		var cands []cand
 		perID := map[string]int{}
 		for _, f := range res.Fails {
+			if row.SafetyOnly && (f.Kind == "ASSERT" || f.Kind == "KNOWN" || strings.HasPrefix(f.Kind, "UNKNOWN-ASSERT")) {
+				continue
+			}
 			if strings.HasPrefix(f.Kind, "UNKNOWN") {
 				inconclusive = append(inconclusive, fmt.Sprintf("%s: solver could not decide %s at %s", row.Func, f.ID, f.Pos))
 				continue
